@@ -13,17 +13,35 @@ for _f in sorted(os.listdir(_ed)):
         importlib.import_module("extractors." + _f[:-3])
 
 
-def regenerate(repo, outdir):
+MAPFILE = os.path.join(os.path.dirname(os.path.abspath(__file__)), "extractor_modules.json")
+
+
+def regenerate(repo, outdir, detailed=False):
+    """-> messages; with detailed=True a list of (Gen module name or None, message), so that a check can tell
+    whether a broken extraction concerns a module its theorems depend on."""
+    import json
     msgs = []
+    try:
+        mapping = json.load(open(MAPFILE))
+    except Exception:
+        mapping = {}
+    newmap = dict(mapping)
     os.makedirs(outdir, exist_ok=True)
     for fn in extract_core.EXTRACTORS:
         try:
             name, text, m = fn(repo)
-            msgs += m
+            newmap[fn.__name__] = name
+            msgs += [(name, x) for x in m]
             write_if_changed(os.path.join(outdir, name + ".lean"), text)
         except Exception as e:   # the source no longer has the shape the extractor knows
-            msgs.append("%s: %r" % (fn.__name__, e))
-    return msgs
+            msgs.append((mapping.get(fn.__name__), "%s: %r" % (fn.__name__, e)))
+    if newmap != mapping:
+        try:
+            with open(MAPFILE, "w") as f:
+                json.dump(newmap, f, indent=1, sort_keys=True)
+        except OSError:
+            pass
+    return msgs if detailed else [m for _, m in msgs]
 
 
 if __name__ == "__main__":
